@@ -35,7 +35,18 @@ const (
 // Unit is the number of Maxwell of one abstract amount unit (1 MASS unless the universe says otherwise).
 var Unit = int64(100000000)
 
-func PrivPass(w string) string { return "privPass" + w + "0" }
+// PrivPass is the private passphrase of wallet w: every other wallet has one of (nearly) the greatest legal length
+// (40; salted buffers of a fixed size cut longer passphrases short), the others a short one.
+func PrivPass(w string) string {
+	p := "privPass" + w + "0"
+	if len(w) > 0 && (w[len(w)-1]-'0')%2 == 0 {
+		p += "@LongPassphrase#0123456789$%^&"
+		if len(p) > 38 {
+			p = p[:38]
+		}
+	}
+	return p
+}
 
 // Key is one derived key of a wallet in its two address forms.
 type Key struct {
@@ -620,7 +631,7 @@ func (w *World) Do(s *Step) error {
 			return fmt.Errorf("harness: %v", err)
 		}
 		w.qB = append(w.qB, s.B)
-	case "Announce":
+	case "Announce", "Reannounce":
 		if _, err := w.tx(s.T); err != nil {
 			return err
 		}
